@@ -38,6 +38,8 @@ ASSUMPTIONS = [
     "double->single beyond the largest single: Overflow (raise) or 'Overflow' message + signed "
     "maximum (soft) is required when the nearer neighbour would be 2^127; within 1/256 ulp of the "
     "midpoint either is accepted",
+    "'stored binary form' is observed independently of MKx$ by PEEKing the variable at VARPTR in the "
+    "stored-program route",
     "HEX$/OCT$ digits are read back with Python int(s, 16/8) as well as with BASIC &H/&O",
     "strings longer than 2/4/8 bytes for CVx are outside the statement and not generated",
     "thorough tier enumerates 2^24 mantissas only at exponents 0x80,0x81,0x8F,0x90,0x97,0x98",
@@ -106,6 +108,9 @@ MK = {2: b'MKI$', 4: b'MKS$', 8: b'MKD$'}
 SIGIL = {2: b'%', 4: b'!', 8: b'#'}
 
 
+_LAST = {}
+
+
 def observe(f, b, route):
     """-> ('ok', result bytes) | ('err', code) | ('escaped', key) | ('budget',) ; soft flag."""
     n = len(b)
@@ -134,6 +139,11 @@ def observe(f, b, route):
         # conversion by assignment to a typed variable where BASIC offers it
         if f in ('CINT', 'CSNG', 'CDBL'):
             line = b'20 R' + SIGIL[rn] + b'=' + CV[n] + b'(A$):C$=' + MK[rn] + b'(R' + SIGIL[rn] + b')'
+        elif f == 'MK':
+            # store in a variable, read MKx$ of it and the variable's bytes in memory
+            v = b'X' + SIGIL[n]
+            line = (b'20 ' + v + b'=' + inner + b':C$=' + MK[n] + b'(' + v + b'):P$="":FOR I%=0 TO '
+                    + str(n - 1).encode() + b':P$=P$+CHR$(PEEK(VARPTR(' + v + b')+I%)):NEXT')
         else:
             line = b'20 C$=' + MK[rn] + b'(' + inner + b')'
         o = s.execute(b'10 ON ERROR GOTO 90\n' + line + b':E%=0:END\n90 E%=ERR:RESUME 99\n99 END\n')
@@ -147,6 +157,7 @@ def observe(f, b, route):
         e = s.get('E%')
         if e:
             return ('err', e), None
+        _LAST['peek'] = bytes(s.get('P$')) if f == 'MK' else None
         return ('ok', bytes(s.get('C$'))), None
     raise ValueError(route)
 
@@ -176,7 +187,7 @@ def judge_conv(res, f, b, route):
     if obs[0] == 'escaped':
         res.fail(obs[1] if obs[1].startswith('escaped.') else 'escaped.' + obs[1], where)
         return
-    key = '%s.%s.%s' % (f.lower(), M.TNAME[n], route)
+    key = '%s.%s' % (f.lower(), M.TNAME[n])
     if obs[0] == 'err-untrapped':
         res.fail(key + '.untrapped', '%s: error %d escaped ON ERROR' % (where, obs[1]))
         return
@@ -209,6 +220,11 @@ def judge_conv(res, f, b, route):
     # bytes: a non-zero value has exactly one encoding; zeros must be value 0 only
     if rn > 2 and rv != 0 and rb != mbf.encode_value(rv, rn):
         res.fail(key + '.encoding', '%s -> %s is not the normalised encoding' % (where, M.hx(rb)))
+    if f == 'MK' and route == 'prog':
+        res.label('stored-form-peeked')
+        if _LAST.get('peek') != rb:
+            res.fail(key + '.stored-form', '%s: MKx$ -> %s but the variable holds %s' % (
+                where, M.hx(rb), M.hx(_LAST.get('peek') or b'')))
     if f == 'MK' and b[-1] != 0 and rb != b:
         res.fail(key + '.bytes', '%s -> %s, expected the same bytes' % (where, M.hx(rb)))
     if f == 'MK' and n == 2 and rb != b:
@@ -310,7 +326,7 @@ def _csng_expect(d):
     return out
 
 
-def bulk_conv(patterns, n, ev, recheck_every=997):
+def bulk_conv(patterns, n, ev, recheck_every=997, distinct=False):
     """patterns: iterable of (bytes, label). Checks CINT, FIX, INT, CDBL/CSNG through the API."""
     A = M.api()
     V, mk, BErr = A.V, A.mk, A.BASICError
@@ -321,108 +337,119 @@ def bulk_conv(patterns, n, ev, recheck_every=997):
     cnt = nt = 0
     tname = M.TNAME[n]
     for i, (b, lab) in enumerate(patterns):
-        d = M.dy(b)
-        t, frac = M.dint(d)
-        fl = t - 1 if (frac and d[0] < 0) else t
-        rnd = M.dround_half_away(d)
-        xin = M.dcmp(d, (INT_MIN, 0)) >= 0 and M.dcmp(d, (INT_MAX, 0)) <= 0
-        new = b not in seen
-        if new and len(seen) < 2000000:
-            seen.add(b)
-        else:
-            new = False
-        labels[lab] = labels.get(lab, 0) + 1
-        if frac:
-            labels['has-fraction'] = labels.get('has-fraction', 0) + 1
-            if d[1] < 0 and (abs(d[0]) & ((1 << -d[1]) - 1)) == (1 << (-d[1] - 1)):
-                labels['exact-half'] = labels.get('exact-half', 0) + 1
-        big = not (INT_MIN < t < INT_MAX)
-        for f, fn in fns:
-            cnt += 1
-            try:
-                r = fn([mk(b)])
-                obs = bytes(r.to_bytes())
-                err = None
-            except BErr as e:
-                obs, err = None, e.err
-            except Exception as e:       # noqa: B902
-                ev.fail(M.frame_key(e), {'u': 'conv', 'f': f, 'b': M.lat(b), 'route': 'api'},
-                        '%s(%s)' % (f, M.hx(b)))
-                continue
-            bad = None
-            if f == 'CINT':
-                if new and (frac or big):
-                    nt += 1
-                if INT_MIN <= rnd <= INT_MAX:
-                    if err is None:
-                        if obs != (rnd & 0xffff).to_bytes(2, 'little'):
-                            bad = 'value'
-                    elif err != 6 or xin:
-                        bad = 'spurious-error'
+      if (i & 1023) == 0:
+          M.arm(180.0)
+      try:
+            d = M.dy(b)
+            t, frac = M.dint(d)
+            fl = t - 1 if (frac and d[0] < 0) else t
+            rnd = M.dround_half_away(d)
+            xin = M.dcmp(d, (INT_MIN, 0)) >= 0 and M.dcmp(d, (INT_MAX, 0)) <= 0
+            if distinct:
+                new = True
+            else:
+                new = b not in seen
+                if new and len(seen) < 2000000:
+                    seen.add(b)
+                else:
+                    new = False
+            labels[lab] = labels.get(lab, 0) + 1
+            if frac:
+                labels['has-fraction'] = labels.get('has-fraction', 0) + 1
+                if d[1] < 0 and (abs(d[0]) & ((1 << -d[1]) - 1)) == (1 << (-d[1] - 1)):
+                    labels['exact-half'] = labels.get('exact-half', 0) + 1
+            big = not (INT_MIN < t < INT_MAX)
+            for f, fn in fns:
+                cnt += 1
+                try:
+                    r = fn([mk(b)])
+                    obs = bytes(r.to_bytes())
+                    err = None
+                except BErr as e:
+                    obs, err = None, e.err
+                except Exception as e:       # noqa: B902
+                    ev.fail(M.frame_key(e), {'u': 'conv', 'f': f, 'b': M.lat(b), 'route': 'api'},
+                            '%s(%s)' % (f, M.hx(b)))
+                    continue
+                bad = None
+                if f == 'CINT':
+                    if new and (frac or big):
+                        nt += 1
+                    if INT_MIN <= rnd <= INT_MAX:
+                        if err is None:
+                            if obs != (rnd & 0xffff).to_bytes(2, 'little'):
+                                bad = 'value'
+                        elif err != 6 or xin:
+                            bad = 'spurious-error'
+                        else:
+                            labels['cint-sliver-overflow'] = labels.get('cint-sliver-overflow', 0) + 1
                     else:
-                        labels['cint-sliver-overflow'] = labels.get('cint-sliver-overflow', 0) + 1
-                else:
-                    labels['cint-overflow'] = labels.get('cint-overflow', 0) + 1
-                    if err is None:
-                        bad = 'overflow-missing'
-                    elif err != 6:
+                        labels['cint-overflow'] = labels.get('cint-overflow', 0) + 1
+                        if err is None:
+                            bad = 'overflow-missing'
+                        elif err != 6:
+                            bad = 'spurious-error'
+                elif f in ('FIX', 'INT'):
+                    if new and (frac or big):
+                        nt += 1
+                    want = t if f == 'FIX' else fl
+                    if err is not None:
                         bad = 'spurious-error'
-            elif f in ('FIX', 'INT'):
-                if new and (frac or big):
-                    nt += 1
-                want = t if f == 'FIX' else fl
-                if err is not None:
-                    bad = 'spurious-error'
-                elif len(obs) != n:
-                    bad = 'type'
-                elif M.dcmp(M.dy(obs), (want, 0)) != 0:
-                    bad = 'value'
-                elif want != 0 and obs != M.enc_int_value(want, n):
-                    bad = 'encoding'
-            elif f == 'CDBL':
-                if new:
-                    nt += 1
-                if err is not None:
-                    bad = 'spurious-error'
-                elif len(obs) != 8:
-                    bad = 'type'
-                elif M.dcmp(M.dy(obs), d) != 0:
-                    bad = 'value'
-                elif d[0] != 0 and obs != M.promote_bytes(b, 8):
-                    bad = 'encoding'
-            else:   # CSNG of a double
-                if new and b[:4] != b'\0\0\0\0':
-                    nt += 1
-                if d[0] == 0:
-                    acc = [(0, 0)]
-                else:
-                    acc = _csng_expect(d)
-                if len(acc) > 1:
-                    labels['csng-near-midpoint'] = labels.get('csng-near-midpoint', 0) + 1
-                if err is not None:
-                    labels['csng-overflow'] = labels.get('csng-overflow', 0) + 1
-                    if err != 6 or 'ovf' not in acc:
+                    elif len(obs) != n:
+                        bad = 'type'
+                    elif M.dcmp(M.dy(obs), (want, 0)) != 0:
+                        bad = 'value'
+                    elif want != 0 and obs != M.enc_int_value(want, n):
+                        bad = 'encoding'
+                elif f == 'CDBL':
+                    if new:
+                        nt += 1
+                    if err is not None:
                         bad = 'spurious-error'
-                elif len(obs) != 4:
-                    bad = 'type'
-                else:
-                    do = M.dy(obs)
-                    if not any(a != 'ovf' and M.dcmp(do, a) == 0 for a in acc):
-                        bad = 'overflow-missing' if acc == ['ovf'] else 'value'
-            case = None
-            if bad:
-                case = {'u': 'conv', 'f': f, 'b': M.lat(b), 'route': 'api'}
-                ev.fail('%s.%s.api.%s' % (f.lower(), tname, bad), case,
-                        '%s(%s:%s) -> %s err=%r' % (f, tname, M.hx(b), obs and M.hx(obs), err))
-            if (i % recheck_every) == 0:
-                # cross-check of the two reference implementations
-                case = case or {'u': 'conv', 'f': f, 'b': M.lat(b), 'route': 'api'}
-                slow = check_case(case)
-                if bool(slow.fails) != bool(bad):
-                    ev.harness_errors.append('reference models disagree on %r: fast=%r slow=%r' % (
-                        case, bad, slow.fails))
-                if len(ev.nt_samples) < 2 and (frac or big):
-                    ev.sample(case)
+                    elif len(obs) != 8:
+                        bad = 'type'
+                    elif M.dcmp(M.dy(obs), d) != 0:
+                        bad = 'value'
+                    elif d[0] != 0 and obs != M.promote_bytes(b, 8):
+                        bad = 'encoding'
+                else:   # CSNG of a double
+                    if new and b[:4] != b'\0\0\0\0':
+                        nt += 1
+                    if d[0] == 0:
+                        acc = [(0, 0)]
+                    else:
+                        acc = _csng_expect(d)
+                    if len(acc) > 1:
+                        labels['csng-near-midpoint'] = labels.get('csng-near-midpoint', 0) + 1
+                    if err is not None:
+                        labels['csng-overflow'] = labels.get('csng-overflow', 0) + 1
+                        if err != 6 or 'ovf' not in acc:
+                            bad = 'spurious-error'
+                    elif len(obs) != 4:
+                        bad = 'type'
+                    else:
+                        do = M.dy(obs)
+                        if not any(a != 'ovf' and M.dcmp(do, a) == 0 for a in acc):
+                            bad = 'overflow-missing' if acc == ['ovf'] else 'value'
+                case = None
+                if bad:
+                    case = {'u': 'conv', 'f': f, 'b': M.lat(b), 'route': 'api'}
+                    ev.fail('%s.%s.%s' % (f.lower(), tname, bad), case,
+                            '%s(%s:%s) -> %s err=%r' % (f, tname, M.hx(b), obs and M.hx(obs), err))
+                if (i % recheck_every) == 0:
+                    # cross-check of the two reference implementations
+                    case = case or {'u': 'conv', 'f': f, 'b': M.lat(b), 'route': 'api'}
+                    slow = check_case(case)
+                    if bool(slow.fails) != bool(bad):
+                        ev.harness_errors.append('reference models disagree on %r: fast=%r slow=%r' % (
+                            case, bad, slow.fails))
+                    if len(ev.nt_samples) < 2 and (frac or big):
+                        ev.sample(case)
+      except M.Hang:
+          ev.inconclusive += 1
+          labels['wall-limit'] = labels.get('wall-limit', 0) + 1
+          M.arm(180.0)
+    M.disarm()
     ev.count(cnt, nontrivial=nt)
     for k, v in labels.items():
         ev.labels[k + '.' + tname] += v
@@ -430,7 +457,7 @@ def bulk_conv(patterns, n, ev, recheck_every=997):
 
 def run_single(shard, nshards, tier, seed, ev):
     rng = random.Random(seed)
-    n = 16000 if tier == 'quick' else 600000
+    n = 40000 if tier == 'quick' else 600000
 
     def pats():
         for _ in range(n):
@@ -440,7 +467,7 @@ def run_single(shard, nshards, tier, seed, ev):
 
 def run_double(shard, nshards, tier, seed, ev):
     rng = random.Random(seed)
-    n = 12000 if tier == 'quick' else 450000
+    n = 30000 if tier == 'quick' else 450000
 
     def pats():
         for _ in range(n):
@@ -459,7 +486,7 @@ def run_single_exh(shard, nshards, tier, seed, ev):
             lab = 'exh-exp-%02x' % e
             for m in range(shard, 1 << 24, nshards):
                 yield m.to_bytes(3, 'little') + eb, lab
-    bulk_conv(pats(), 4, ev, recheck_every=99991)
+    bulk_conv(pats(), 4, ev, recheck_every=99991, distinct=True)
 
 
 def gen_ints(shard, nshards, tier, seed):
@@ -530,4 +557,15 @@ REGRESSIONS = [
     _c('MK', 'ffffffffffffffff', 'prog'),
 ]
 
-KILLS = []
+KILLS = [
+    "seeded/C03 (itrunc 'already whole' shortcut off by one exponent) => fix.single.value, int.single.value",
+    'numbers.Float.to_int: carry test `man & 0x80` -> `man & 0x100` => cint.single.value, cint.single.overflow-missing (single-bulk)',
+    'numbers.Float.ifloor: drop `and was_negative` => int.double.value (double-bulk)',
+    'numbers.Double.to_single: drop the carry byte (`man += mybytes[3]` removed) => csng.double.value, csng.double.overflow-missing',
+    'numbers.Double.to_single: carry byte masked `& 0x7f` (never rounds up) => csng.double.value, csng.double.overflow-missing',
+    'values.mki_: byte order reversed => mk.int.value, cint.single.value (conv-eval; also int.mki in int-all)',
+    'numbers.Float.to_int_truncate: `(-man) >> 8` (floors negatives) => fix.single.value, int.single.value',
+    'numbers.Integer.from_int: `-0x8000 < in_int` (rejects -32768) => cint.single.spurious-error',
+    'numbers.Integer.from_hex: unsigned=False => int.hex-literal, int.hex-roundtrip (int-all)',
+    "SURVIVES (equivalent): Integer.to_oct zero special case removed - b'%o' % 0 is already b'0'",
+]
